@@ -113,3 +113,18 @@ contract("C13.names_with_attribute_carry_the_prefix_asked_for", file="hed/schema
          requires=["return_name_only"],
          ensures={"C13.names.every_name_starts_with_the_prefix_asked_for": "all(result[k].startswith(schema_namespace) for k in range(len(result)))"},
          assume=["only the names form (return_name_only=True) is covered"])
+
+# C13 "a library schema partnered with a standard schema contains every standard tag ... plus its own tags": a partnered library read from
+# its unmerged file starts as a copy of the (shared, possibly already used) standard schema and gets its own entries added; no finished
+# attribute list may survive an added entry, or the library's own unique / required / ... tags are missing from what the validator asks for
+class_model("SectionAdd", {"_attribute_cache": "Map[Str,List[EntryN]]", "all_entries": "List[EntryN]", "all_names": "Map[Str,EntryN]",
+                           "_duplicate_names": "Map[Str,List[EntryN]]", "case_sensitive": "Bool"})
+contract("C13.added_entry_drops_finished_attribute_lists", file="hed/schema/hed_schema_section.py", func="HedSchemaSection._add_to_dict",
+         params={"self": "SectionAdd", "name": "Str", "new_entry": "EntryN"}, returns="EntryN", enc="native", self_class="SectionAdd",
+         modifies=["self._attribute_cache", "self.all_entries", "self.all_names", "self._duplicate_names"],
+         ensures={
+             "C13.add.no_finished_attribute_list_survives": "no_keys(self._attribute_cache)",
+             "C13.add.entry_is_listed": "len(self.all_entries) == len(old(self.all_entries)) + 1"
+                                        " and self.all_entries[len(self.all_entries) - 1] is new_entry",
+             "C13.add.entry_is_returned": "result is new_entry",
+         })
